@@ -142,7 +142,13 @@ class Interp:
         o = VObj(clsname)
         if fields:
             for f, t in fields.items():
+                if f == "__state":
+                    continue
                 o.fields[f] = self.fresh(t, f"{name}.{f}")
+        cd = self.reg.repo_classes.get(clsname)
+        if cd is not None and self.reg.automat is not None and (fields is None or "__state" in (fields or {})):
+            if self.reg.automat.machine_of(cd) is not None:
+                self.reg.automat.fresh_state(self, o, cd, name)
         return o, []
 
     def fresh_like(self, v, name):
